@@ -4,6 +4,7 @@ package simrt
 
 import (
 	"fmt"
+	"time"
 	"reflect"
 	"sort"
 
@@ -186,4 +187,26 @@ func TrySendIf[T any](cond bool, c chan<- T, v T) bool {
 	default:
 		return false
 	}
+}
+
+// UniqueDur returns d, lengthened by the few nanoseconds needed for now+d to be an expiry
+// no other timer of the current run has (see the dettimer overlay pass). Without an
+// installed scheduler it returns d unchanged.
+func UniqueDur(d time.Duration) time.Duration {
+	s := sim.Current()
+	if s == nil || d <= 0 {
+		return d
+	}
+	now := time.Now().UnixNano()
+	return time.Duration(s.UniqueWhen(now+int64(d)) - now)
+}
+
+// UniqueTime is UniqueDur for an absolute deadline.
+func UniqueTime(t time.Time) time.Time {
+	s := sim.Current()
+	if s == nil || t.IsZero() {
+		return t
+	}
+	w := t.UnixNano()
+	return t.Add(time.Duration(s.UniqueWhen(w) - w))
 }
